@@ -46,17 +46,7 @@ class SymFloor:
             return self._k
         r = engine.cur()
         while True:
-            if r.model is None:
-                res, m = r._check([])
-                if res != "sat":
-                    if res == "unsat":
-                        raise engine.Infeasible()
-                    r.stats.truncated += 1
-                    raise engine.Truncated()
-                r.model = m
-            va = engine.model_value(r.model, self.a)
-            vb = engine.model_value(r.model, self.b)
-            k = math.floor(Fraction(va) / Fraction(vb))
+            k = r.guided(lambda m: math.floor(Fraction(engine.model_value(m, self.a)) / Fraction(engine.model_value(m, self.b))))
             if r.branch(z3.And(self._ge(k), self._lt(k + 1))):
                 self._k = k
                 return k
